@@ -187,3 +187,80 @@ PROPS["C07"] = Prop(
     oracle_tokens=["ORACLE_STEP_", "ORACLE_GROWTH_", "ORACLE_REPEATED_REJECTION_CUT", "ORACLE_ACCEPT_IFF",
                    "ORACLE_ERROR_NORM_NOT_RMS", "ORACLE_ISCONVERGED"],
 )
+
+_slv_trust = COMMON_TRUST + [
+    "assembled-solver drivers (harness/common/solver_impl.hpp): the public builder / State / Solver API over "
+    "{Matrix, VectorMatrix<2,3,4>} x {CSR, CSC} x {Doolittle, Mozart, DoolittleInPlace, MozartInPlace} x reorder on/off x "
+    "species listing order, both integrators; these runs are in binary64 and are judged by the implementation oracle, "
+    "not compared with the model"]
+_slv_drv = {"slvr": ("drv_solver_ros", "plain"), "slvb": ("drv_solver_be", "plain")}
+
+
+def _slv_hist(lines):
+    h = {}
+    for l in lines:
+        t = l.split()
+        if t and t[0] in ("slvr", "slvb"):
+            key = t[0] + ":" + t[1]
+            h[key] = h.get(key, 0) + 1
+        elif t:
+            h[t[0]] = h.get(t[0], 0) + 1
+    return h
+
+
+PROPS["C09"] = Prop(
+    "C09", family_driver=_slv_drv, model_families=set(),
+    generate=lambda rng, tier: G.gen_slv_cfg(rng, tier, "c09", 1500, 30000),
+    rule="random mechanisms (2-5 species, 1-6 reactions, repeated reactants, third bodies) that conserve a positive weighted "
+         "sum by construction (checked exactly on the stoichiometry by the harness), random states / rate constants / "
+         "time steps 1e-2..1e2 x 1-3 calls / tolerances / five parameter sets and backward Euler, two random configurations "
+         "each; the overload of Solve that does not clip; non-trivial = every case",
+    trusted=_slv_trust, histogram=_slv_hist,
+    oracle_tokens=["ORACLE_LINEAR_INVARIANT_NOT_CONSERVED"],
+    assumptions=["drift tolerance 1e-9 relative to sum |w_i y_i| for |y|, k <= 1e3 (rounding drift scales with stiffness)"])
+PROPS["C12"] = Prop(
+    "C12", family_driver=_slv_drv, model_families=set(),
+    generate=lambda rng, tier: G.gen_slv_cfg(rng, tier, "c12", 1000, 20000),
+    rule="random mechanisms and problems as C09, each solved with 3-6 configurations drawn from the cross product "
+         "{row-major, grouped L=2,3,4} x {CSR, CSC} x 4 LU algorithms x reorder on/off; concentrations by species name "
+         "compared at 1e-7 relative, rate constants exactly",
+    trusted=_slv_trust, histogram=_slv_hist,
+    oracle_tokens=["ORACLE_CONFIGS_DISAGREE"])
+PROPS["C13"] = Prop(
+    "C13", family_driver=_slv_drv, model_families=set(),
+    generate=lambda rng, tier: G.gen_slv_cells(rng, tier),
+    rule="N in 1..3L+1 identical cells vs one cell (all cells bit-identical to each other, equal to the single cell up to "
+         "the shared error norm), and the same cell among N-1 cells holding other data (rate constants bit-identical), "
+         "for L in {row-major,2,3,4}, both integrators, random configuration",
+    trusted=_slv_trust, histogram=_slv_hist,
+    oracle_tokens=["ORACLE_IDENTICAL_CELLS_DIFFER", "ORACLE_RATE_CONSTANT_DEPENDS", "ORACLE_N_IDENTICAL_CELLS",
+                   "ORACLE_CELL_COUNT_CHANGES_ERROR"])
+PROPS["C11"] = Prop(
+    "C11", family_driver=_slv_drv, model_families=set(),
+    generate=lambda rng, tier: G.gen_slv_reuse(rng, tier),
+    rule="sequences of 2-6 (quick) / 2-12 (thorough) problems on one State whose Jacobian, L/U, stage vectors and other "
+         "scratch members are overwritten with NaN / 1e300 before every Solve, vs a fresh State per problem: results, "
+         "statistics and rate constants compared bit for bit; a quarter of the problems carry NaN/Inf/huge inputs so that "
+         "the next problem starts after a NaN or rejection-heavy exit; 32 configurations x both integrators",
+    trusted=_slv_trust, histogram=_slv_hist,
+    oracle_tokens=["ORACLE_REUSED_STATE"])
+PROPS["C10"] = Prop(
+    "C10", family_driver=dict(_slv_drv, **{"rosmock": ("drv_integrators", "plain")}), model_families={"rosmock"},
+    generate=lambda rng, tier: G.gen_slv_cfg(rng, tier, "c10", 2000, 40000) + G.gen_rosmock_special(rng, tier),
+    rule="assembled solvers (both integrators, random configuration) on inputs with NaN, +Inf, negative, 1e300 values in a "
+         "random concentration or rate constant, or unset conditions (T = 0), 1-5 cells; scripted-policy Rosenbrock runs "
+         "whose error norm is NaN or Inf at a random attempt; non-trivial = every case",
+    trusted=_slv_trust + _int_trust, histogram=_slv_hist,
+    oracle_tokens=["ORACLE_NEGATIVE_AFTER_SOLVE", "ORACLE_CONVERGED_WITH_NONFINITE", "ORACLE_NONFINITE_INPUT_REPORTED_CONVERGED",
+                   "ORACLE_NEGATIVE_CONCENTRATION"])
+PROPS["C14"] = Prop(
+    "C14", family_driver=dict(_slv_drv, markowitz=("drv_linalg", "plain")), model_families=set(),
+    generate=lambda rng, tier: G.gen_slv_cfg(rng, tier, "c14", 800, 15000) + G.gen_markowitz(rng, tier),
+    rule="random mechanisms whose species carry (or not) an 'absolute tolerance' property, solved for 3-6 random "
+         "permutations of the species listing x reorder on/off x layouts: the name->index map must be a bijection agreeing "
+         "with variable_names_, tolerances land at the named species, results by name agree; the real "
+         "DiagonalMarkowitzReorder on every 0/1 pattern n<=3 (quick) / n<=4 (thorough) and random n<=8, row-major and "
+         "grouped int matrices: the result must be a permutation",
+    trusted=_slv_trust, histogram=_slv_hist,
+    oracle_tokens=["ORACLE_SPECIES_MAP_NOT_A_BIJECTION", "ORACLE_TOLERANCE_NOT_BY_NAME", "ORACLE_CONFIGS_DISAGREE",
+                   "ORACLE_REORDERING_NOT_A_PERMUTATION"])
